@@ -1058,10 +1058,9 @@ func execPt2(w []string, res *h.Result) {
 	case "mulbase":
 		sb := h.UnHex(w[2])
 		if sb[31] > 127 {
+			// outside the contract of the window recoding: point.Mul reduces the scalar first (fix ec5317f);
+			// B has order l, so the result is still (value of the bytes)*B
 			res.Class += "-a31>127"
-			P := suite.Point().Mul(mustScalar(sb), nil)
-			res.Impl = show(P, edwards25519.VerifPointLimbs(P))
-			return
 		}
 		check(suite.Point().Mul(mustScalar(sb), nil), bigMul(le(sb), bigBase))
 	case "unmarshal":
@@ -1092,8 +1091,10 @@ func execPt2(w []string, res *h.Result) {
 		P, a := dec(w[3])
 		R := suite.Point().Mul(mustScalar(sb), P)
 		if sb[31] > 127 {
+			// point.Mul reduces an out-of-contract scalar modulo l (fix ec5317f): (s mod l)*P, which is s*P on the
+			// prime-order subgroup only
 			res.Class += "-a31>127"
-			res.Impl = show(R, edwards25519.VerifPointLimbs(R))
+			check(R, bigMul(new(big.Int).Mod(le(sb), ell), a))
 			return
 		}
 		check(R, bigMul(le(sb), a))
